@@ -96,6 +96,13 @@ def printDescription (o : Opts) (desc : Option String) (depth : Nat := 0) (first
     let indent := repeatStr o.indent depth
     let lines := wrappedLines (d.splitOn "\n") (120 - indent.length)
     let first := lines.headD ""
+    -- fixes D3 / D1 (lang3): a carriage return, or a white-space-led first line whose other non-blank lines are all
+    -- indented, cannot be written as a block string: quoted form
+    let startsWs (l : String) : Bool := match l.toList with | c :: _ => c == ' ' || c == '\t' | [] => false
+    let rest := (lines.drop 1).filter (fun l => !l.toList.all (fun c => c == ' ' || c == '\t'))
+    if d.toList.contains '\r' || (startsWs first && !rest.isEmpty && rest.all startsWs) then
+      (if !indent.isEmpty && !firstInBlock then "\n" else "") ++ indent ++ jsonDumps d ++ "\n"
+    else
     let body :=
       if lines.length == 1 && first.length < 70 && !first.endsWith "\"" then escTriple first
       else
